@@ -682,7 +682,8 @@ def rule_bm1(ctx):
            and dotted(n.func) == "np.concatenate"]
     if prods and cat and isinstance(cat[0].args[0], (ast.Tuple, ast.List)):
         first = dotted(cat[0].args[0].elts[0])
-        used = dotted(prods[-1].args[1]) if len(prods[-1].args) > 1 else None
+        _pa = ctx.p.positional_args(prods[-1])
+        used = dotted(_pa[1]) if len(_pa) > 1 else None
         if used == first:
             r.ok("BM1", "Subspace.intersect:product", loc(f, prods[-1]),
                  dotted(prods[-1])[:100],
